@@ -4,6 +4,7 @@ a small vocabulary of environment steps (peer sends / reads / closes, ticks, clo
 Driving style is step-wise: tick() runs the executor's own Threadless._run_once() once.  Environment steps
 happen between ticks (reduction argument, DESIGN.md 2.3).
 """
+import gc
 import asyncio
 import errno
 import weakref
@@ -29,6 +30,22 @@ def flags_for(args, **opts):
     if key not in _FLAGS:
         _FLAGS[key] = FlagParser.initialize(list(args) + ['--threadless', '--log-level', 'CRITICAL'], **opts)
     return _FLAGS[key]
+
+
+_EXAMPLES = {}
+
+
+def example_class(module, name):
+    """A work class shipped in the repository's examples/ directory (not a package): loaded from the tree under test."""
+    import importlib.util
+    import os
+    from harness.common import REPO
+    if module not in _EXAMPLES:
+        spec = importlib.util.spec_from_file_location('repo_examples_' + module, os.path.join(REPO, 'examples', module + '.py'))
+        m = importlib.util.module_from_spec(spec)
+        spec.loader.exec_module(m)
+        _EXAMPLES[module] = m
+    return getattr(_EXAMPLES[module], name)
 
 
 class Peer:
@@ -276,10 +293,16 @@ class Sim:
             if not self.alive:
                 return False
             self.world.ev(ev='tick')
+            nworks = len(self.ex.works)
             try:
                 stop = self.ex.loop.run_until_complete(self.ex._run_once())
                 if stop:
                     self.alive = False
+                if len(self.ex.works) < nworks:
+                    # a work the executor forgot after an exception sits in a reference cycle (Task -> exception ->
+                    # traceback -> _run_once frame -> Task) exactly as in the real process; there the cycle collector
+                    # frees it sooner or later, here at once, so that verdicts never depend on collector timing
+                    gc.collect()
             except Exception as e:      # what _run_forever would not survive either
                 self.alive = False
                 self.loop_error = e
